@@ -186,12 +186,12 @@ FILE_TRUST = ["the container-reader model (AvroModel/File.lean) is hand-written 
               "compress/flate, golang/snappy, hash/crc32 and the schema JSON parser + Schema.Codec are parameters of the model (Ext); the harness calls the "
               "decompression libraries directly and hands their verdict per payload to the model",
               "the record decoder is the codec model's `read` (C03/C04) into the zero value of the Go type (typedmemclr + codec.Read)",
-              "Go's makeslice limit (maxAlloc = 2^48 on linux/amd64) as the only modelled allocation failure; real memory exhaustion below it is outside the model (C06)"]
+              "readN's chunked reading (1 MiB chunks) is modelled as such; memory consumption is outside the model (the harness measures it for unbacked declared lengths)"]
 PROPS["C07"] = {
     "lean_modules": ["AvroModel.Props.C07"],
     "required_theorems": ["delivers", "callback_error", "callback_error_count", "sync", "crc", "inflate", "damaged_block", "snappy_short",
-                          "snappy_garbled", "magic", "no_schema", "bad_schema", "unknown_codec", "no_codec_means_null", "no_panic", "no_panic_partial",
-                          "no_panic_full_false", "hugeLenFile_panics", "valid_mkHeader", "fuel_enough"],
+                          "snappy_garbled", "magic", "no_schema", "bad_schema", "unknown_codec", "no_codec_means_null", "no_panic",
+                          "valid_mkHeader", "fuel_enough"],
     "harness": ["C07"],
     "level_text": "Proof over a model of ReadFile / readFileHeader / readBytes / FileHeader.schema / the three decompress methods (AvroModel/File.lean; "
                   "binary.ReadVarint and io.ReadFull modelled from their sources, flate / snappy / crc32 / schema parsing + codec construction as "
@@ -202,8 +202,8 @@ PROPS["C07"] = {
                   "header's marker yields an error after delivering exactly the blocks up to it, nothing later (sync); a snappy CRC mismatch, an "
                   "inflate/snappy failure or a snappy block shorter than 4 bytes yield an error with nothing of that block delivered (crc, inflate, "
                   "snappy_garbled, snappy_short); wrong magic, missing or unusable schema, unknown codec yield an error with nothing delivered; a header "
-                  "without avro.codec behaves exactly like one with codec null; no input whatsoever makes the model panic except a declared length above "
-                  "2^48 (no_panic; the full statement is refuted by hugeLenFile_panics - a known finding). Induction over the block list. "
+                  "without avro.codec behaves exactly like one with codec null; no input whatsoever makes the model panic (no_panic: negative lengths, short "
+                  "snappy blocks, lengths nothing backs - read in 1 MiB chunks by readN - are errors). Induction over the block list. "
                   "Tie: files written by the real encoder (4 static struct types) and by the harness's own container writer from spec-level datums "
                   "(random schemas/types, arbitrary partitions, metadata layouts), 3 codecs, read by the real avro.ReadFile through bufio.Reader; every "
                   "bit of every sync marker, of the magic and of every snappy CRC trailer, sampled/all bits of compressed payloads, the callback failing "
@@ -219,7 +219,8 @@ PROPS["C07"] = {
             "six metadata layouts (order, two map blocks, duplicate keys, empty key/value, no codec entry). Per file: intact + callback failing at every "
             "index 0..n; every bit of magic, header sync, every block sync, every snappy CRC; compressed payload bits: all for payloads <= 24 B quick / "
             "2 kB thorough, else 64 / 512 sampled. Header variants: missing/misspelt schema and codec keys, 8 unknown codec names, unparsable or "
-            "unfitting schema JSON, negative map counts, counts beyond the entries, negative / oversized / >2^48 lengths, 10-byte and overlong "
+            "unfitting schema JSON, negative map counts, counts beyond the entries, negative lengths, unbacked lengths 2^20..2^63-1 (allocation measured: more than 64 MiB "
+            "is a failing input), 10-byte and overlong "
             "varints; data blocks with negative length, negative count, count beyond the payload, oversized length, trailing garbage; snappy and "
             "deflate payloads of 0-4 random bytes.",
     "trusted": FILE_TRUST,
